@@ -1,6 +1,7 @@
 From Coq Require Import Extraction ExtrOcamlBasic.
-From LCP Require Import Base.ExtractBase Base.CheckedMem Gen.Repo_ds DS.AllocOracle DS.ElasticArray
-  DS.ElasticQueue DS.SeqPtrMap DS.Mpool DS.ElasticArrayRepo.
+From LCP Require Import Base.ExtractBase Base.CheckedMem Gen.Repo_ds.
+From LCP Require Import DS.AllocOracle DS.ElasticArray DS.ElasticQueue DS.SeqPtrMap DS.Mpool.
+From LCP Require Import DS.ElasticArrayRepo.
 Extraction Language OCaml.
 Extraction "ds.ml" force_number_types
   next refused requests heap_run
